@@ -159,8 +159,8 @@ def good_block():
 
 SEPS = [", ", "; ", "\n", ",\n", "\n\n", ";\n", " "]
 TR_SEPS = [" ", "\n", ", ", ": ", ",\n", "; "]
-CONN = [" of ", " in ", " of\n"]
-TR_JOIN_SDESC = [", ", " of ", " in ", "\n", "; ", ",\n"]     # S_desc_TR: last block -> Twp/Rge
+CONN = [" of ", " in ", " of\n", " of ", " in ", " OF ", " Of ", " IN "]
+TR_JOIN_SDESC = [", ", " of ", " in ", "\n", "; ", ",\n", " OF ", " IN "]     # S_desc_TR: last block -> Twp/Rge
 TR_JOIN_DESCSTR = [", ", "; ", ",\n", " ", "\n"]                # desc_STR: section -> Twp/Rge (DESIGN 6.2)
 
 
